@@ -366,4 +366,119 @@ theorem childGone_only_if : ∀ (outs : List WaitOutcome) (r : Nat),
       · subst e; rw [nonFinal_status]; simp [hterm]
       · exact hnf o e
 
+/-! ## the function regenerated from the clang AST (`Gen/SeparateProcessLoop.lean`)
+
+The conditions below are the expansions of `WIFEXITED`, `WEXITSTATUS`, `WIFSIGNALED`, `WIFSTOPPED`,
+`WTERMSIG` that the installed `<sys/wait.h>` produced inside the source's own expressions, with C's
+`int` arithmetic (`sshiftRight`, `(signed char)` truncation and sign extension). -/
+
+open Gen.SepProcLoop
+
+theorem and127 (s : BitVec 32) : s &&& 127#32 = BitVec.ofNat 32 (s.toNat % 128) := by
+  apply BitVec.eq_of_toNat_eq
+  have h1 : (s &&& 127#32).toNat = s.toNat % 128 := by
+    rw [BitVec.toNat_and]; exact Nat.and_two_pow_sub_one_eq_mod s.toNat 7
+  have : s.toNat % 128 < 2^32 := by omega
+  rw [h1, BitVec.toNat_ofNat, Nat.mod_eq_of_lt this]
+
+theorem gen_exited (s : BitVec 32) : ((s &&& 127#32) == 0#32) = wIfExited s := by
+  rw [wIfExited_eq, and127]
+  have h : s.toNat % 128 < 128 := Nat.mod_lt _ (by decide)
+  generalize s.toNat % 128 = t at h
+  revert t; decide
+
+theorem gen_signaled (s : BitVec 32) :
+    BitVec.slt 0#32 (((((s &&& 127#32) + 1#32).truncate 8).signExtend 32).sshiftRight 1) = wIfSignaled s := by
+  rw [wIfSignaled_eq, and127]
+  have h : s.toNat % 128 < 128 := Nat.mod_lt _ (by decide)
+  generalize s.toNat % 128 = t at h
+  revert t; decide
+
+theorem and255 (s : BitVec 32) : s &&& 255#32 = BitVec.ofNat 32 (s.toNat % 256) := by
+  apply BitVec.eq_of_toNat_eq
+  have h1 : (s &&& 255#32).toNat = s.toNat % 256 := by
+    rw [BitVec.toNat_and]; exact Nat.and_two_pow_sub_one_eq_mod s.toNat 8
+  have : s.toNat % 256 < 2^32 := by omega
+  rw [h1, BitVec.toNat_ofNat, Nat.mod_eq_of_lt this]
+
+set_option maxRecDepth 8000 in
+theorem gen_stopped (s : BitVec 32) : ((s &&& 255#32) == 127#32) = wIfStopped s := by
+  rw [wIfStopped_eq, and255]
+  have h : s.toNat % 256 < 256 := Nat.mod_lt _ (by decide)
+  generalize s.toNat % 256 = t at h
+  revert t; decide
+
+theorem gen_exitstatus (s : BitVec 32) : (s &&& 65280#32).sshiftRight 8 = BitVec.ofNat 32 (wExitStatus s) := by
+  have hm : (s &&& 65280#32).msb = false := by
+    have h2 : (65280#32).msb = false := by decide
+    rw [BitVec.msb_and, h2]; simp
+  rw [BitVec.sshiftRight_eq_of_msb_false hm]
+  unfold wExitStatus
+  rw [BitVec.ofNat_toNat]; simp
+
+set_option maxRecDepth 8000 in
+theorem gen_exitstatus_ne (s : BitVec 32) : ((s &&& 65280#32).sshiftRight 8 != 0#32) = (wExitStatus s != 0) := by
+  rw [gen_exitstatus, wExitStatus_eq]
+  have h : s.toNat / 256 % 256 < 256 := Nat.mod_lt _ (by decide)
+  generalize s.toNat / 256 % 256 = t at h
+  revert t; decide
+
+theorem gen_termsig_text (s : BitVec 32) : toString ((s &&& 127#32)).toInt = toString (wTermSig s) := by
+  rw [wTermSig_eq, and127]
+  have h : s.toNat % 128 < 128 := Nat.mod_lt _ (by decide)
+  generalize s.toNat % 128 = t at h
+  have : (BitVec.ofNat 32 t).toInt = Int.ofNat t := by
+    rw [BitVec.toInt_eq_toNat_cond, BitVec.toNat_ofNat]
+    have : t % 2^32 = t := Nat.mod_eq_of_lt (by omega)
+    rw [this]; simp; omega
+  rw [this]; rfl
+
+/-- the regenerated `SetTestFailureByStatusCode` adds exactly the texts of the hand model -/
+theorem setTestFailureGen_eq (s : BitVec 32) : setTestFailureGen s = (statusFailures s).map (·.text) := by
+  unfold setTestFailureGen statusFailures statusChain
+  simp only [chainFailures, condHolds, classOfArm, textOfArm]
+  rw [gen_exited, gen_exitstatus_ne, gen_signaled, gen_stopped, gen_termsig_text]
+  cases wIfExited s && wExitStatus s != 0 <;> cases wIfSignaled s <;> cases wIfStopped s <;> simp
+
+/-! ## the regenerated loop is the hand model -/
+
+theorem gen_prepend (fs : List Failure) (c : Nat) (r : LoopResult) :
+    (r.prepend fs c).gen = r.gen.prepend (fs.map (·.text)) c := by
+  simp [LoopResult.prepend, LoopResult.gen, GenResult.prepend]
+
+theorem retry_bound_fits : retryBound + 2 < 2 ^ 64 := by decide
+
+theorem waitBodyGen_eintr (r : Nat) (st : BitVec 32) (h : r ≤ retryBound + 1) :
+    waitBodyGen (BitVec.ofNat 64 r) st .eintr =
+      if r > retryBound then .ret [msgEintrGiveUp] 0 else .fall [] 0 (BitVec.ofNat 64 (r + 1)) st true := by
+  have hb := retry_bound_fits
+  have hr : r % 2 ^ 64 = r := Nat.mod_eq_of_lt (by omega)
+  have hlt : BitVec.ult (BitVec.ofNat 64 retryBound) (BitVec.ofNat 64 r) = decide (retryBound < r) := by
+    simp only [BitVec.ult, BitVec.toNat_ofNat, hr, Nat.mod_eq_of_lt (show retryBound < 2 ^ 64 by omega)]
+  have hadd : BitVec.ofNat 64 r + 1#64 = BitVec.ofNat 64 (r + 1) := by
+    rw [BitVec.ofNat_add]
+  rw [show waitBodyGen (BitVec.ofNat 64 r) st .eintr =
+      (if BitVec.ult (BitVec.ofNat 64 retryBound) (BitVec.ofNat 64 r) then BodyOut.ret [msgEintrGiveUp] 0
+       else .fall [] 0 (BitVec.ofNat 64 r + 1#64) st true) from rfl]
+  rw [hlt, hadd]
+  by_cases hgt : r > retryBound
+  · have h2 : retryBound < r := hgt
+    simp [h2]
+  · have h2 : ¬ retryBound < r := hgt
+    simp [h2]
+
+theorem waitBodyGen_error (r : BitVec 64) (st : BitVec 32) :
+    waitBodyGen r st .error = .ret [msgWaitFailed] 0 := by
+  unfold waitBodyGen; simp [msgWaitFailed]
+
+theorem waitBodyGen_status (r : BitVec 64) (st s : BitVec 32) :
+    waitBodyGen r st (.status s) =
+      .fall ((statusFailures s).map (·.text)) (contOf s) r s (!(wIfExited s || wIfSignaled s)) := by
+  unfold waitBodyGen
+  simp only []
+  rw [gen_exited, gen_signaled, gen_stopped, setTestFailureGen_eq]
+  unfold contOf
+  cases wIfStopped s <;> cases wIfExited s <;> cases wIfSignaled s <;> simp
+
+
 end SepProc
